@@ -460,6 +460,33 @@ struct Minimiser {
         adopt(prog, e);
       }
     }
+    // shortest prefix of the decision list that still leads to the violation when the rest is filled in by the default policy
+    // (keep running the current vthread, else the lowest enabled one): removes the spinning tail of deadlock schedules
+    {
+      size_t lo = 0, hi = rs.choices.size();
+      EvalOut best;
+      bool have = false;
+      while (lo < hi) {
+        const size_t mid = (lo + hi) / 2;
+        RunSpec c = rs;
+        c.choices.resize(mid);
+        evals++;
+        EvalOut e = eval_in_child(prog, c, false);
+        if (e.ran && e.status != dsim::kOk && e.status != dsim::kStepCap && class_key(e.cls) == key) {
+          hi = mid;
+          best = e;
+          have = true;
+        } else {
+          lo = mid + 1;
+        }
+      }
+      if (have) {
+        size_t sw_old = 0, sw_new = 0;
+        for (size_t x = 1; x < rs.choices.size(); ++x) sw_old += rs.choices[x] != rs.choices[x - 1];
+        for (size_t x = 1; x < best.choices.size(); ++x) sw_new += best.choices[x] != best.choices[x - 1];
+        if (sw_new < sw_old) adopt(prog, best);
+      }
+    }
     // greedy removal of context switches: extend a run of one vthread over the next run
     for (int pass = 0; pass < 3; ++pass) {
       bool any = false;
